@@ -123,7 +123,7 @@ def run(ctx):
     tb.start()
 
     tmo = 900 if quick else 2400
-    nsim = (600 if quick else 6000)
+    nsim = 600 if quick else 3000
     depth = 14 if quick else 18
     threads = [
         # the design: contract invariants and action properties over every interleaving (VIEW hides the history)
@@ -185,7 +185,7 @@ def run(ctx):
         if '"full"' in b:
             size_all.append(b)
     ctx.rng.shuffle(size_all)
-    budget_s = 70 if quick else 1500
+    budget_s = 70 if quick else 400
     size_cases = []
     n_upd = n_start = 0
     for b in size_all:
@@ -208,7 +208,7 @@ def run(ctx):
         raise vlib.Inconclusive('the size configuration produced no history with a refused write')
     seen = set(_key(c['steps']) for c in cases)
     nsimh = {'gen': 0, 'genok': 0}
-    big_budget = 40 if quick else 800
+    big_budget = 40 if quick else 300
     nbig = 0
     ids_full = ['r1', 'r2'] if quick else ['r1', 'r2', 'r3']
     for name in ('gen', 'genok'):
